@@ -39,6 +39,9 @@ def run(chk, program, tier):
     # a decode helper that writes module-level state (a cache keyed too coarsely) makes one decoded value depend on what was decoded before (C16's clause)
     chk.rule('NO-GLOBAL-WRITE', 'no function writes module-level state (C16)')
     rules_iso.no_global_write(_Sub(chk, {'NO-GLOBAL-WRITE'}), program)
+    chk.rule('DEC-REACH', 'every well-formed frame reaches its generated decoder, addressed as it arrived')
+    from .. import rules_filter as _RF
+    _RF.decode_reach(chk, program)
     R.gen_tab(chk, program)
     R.gen_raise(chk, program)
     R.gen_offset(chk, program, off)
